@@ -419,6 +419,8 @@ class World:
     def __init__(self, cfg, resources=None):
         self.cfg = cfg
         self.klass = env.cls(cfg.clsname)
+        if getattr(cfg, "options", {}).get("warm_siblings"):
+            env.warm_siblings(cfg.clsname)
         self.threading_off = getattr(cfg, "options", {}).get("threading") is False
         if self.threading_off:
             self.klass.disable_multithreading()  # exercises the non-atomic in-place write path
